@@ -148,6 +148,8 @@ def run(tier, seed, replay=None):
         if prob and prob.startswith("HARNESS:"):
             rep.assumptions.append("case skipped (setup failed): " + prob[:100])
             continue
+        if prob and len(rep.violations) >= 15:
+            continue                         # enough confirmed counterexamples; each confirmation costs a fresh run
         if prob:
             o2, _ = run_cases(b, [(lab, chain, selfname, items, unread)], b["root"] + "/confirm")
             if not filters.judge(o2.get(lab), not h["drop"]):
